@@ -34,6 +34,7 @@ pub struct Profile {
     pub search_values: bool,
     pub cross_type: bool,
     pub binary_values: bool,
+    pub big_values: bool,
 }
 
 impl Profile {
@@ -45,7 +46,7 @@ impl Profile {
             w_maintain: 0, reads_per_step: 1, exotic_values: false, bad_inputs: true, max_elems: 10,
             variants: vec![Kind::Memory],
             searches_per_step: 0, focus: Focus::Mixed, search_values: false, cross_type: true,
-            binary_values: false,
+            binary_values: false, big_values: false,
         };
         let search = |p: &mut Profile, f: Focus| {
             p.searches_per_step = 3; p.focus = f; p.search_values = true; p.reads_per_step = 0;
@@ -63,6 +64,9 @@ impl Profile {
             "maint_file" => { p.w_maintain = 14; p.variants = vec![Kind::File]; }
             "maint_memory" => { p.w_maintain = 14; p.variants = vec![Kind::Memory]; }
             "variants" => { p.variants = Kind::all().to_vec(); p.w_maintain = 3; }
+            // the same in lock-step with values of 40-120 KiB: the files pass 1 MiB and are reopened, copied, backed up
+            "variants_big" => { p.variants = Kind::all().to_vec(); p.w_maintain = 8; p.big_values = true; p.max_elems = 60; p.w_insert_nodes = 30;
+                                p.w_insert_values = 14; p.w_remove = 3; p.w_remove_values = 2; p.w_tx = 2; p.bad_inputs = false; p.reads_per_step = 1; }
             "values" => { p.exotic_values = true; p.w_insert_values = 20; p.w_update_nodes = 8; p.w_remove_values = 8;
                           p.variants = vec![Kind::Memory, Kind::File, Kind::Mapped]; p.w_maintain = 4; p.bad_inputs = false; }
             "search_trav" => search(&mut p, Focus::Traversal),
@@ -110,6 +114,21 @@ impl View {
     }
 }
 
+thread_local! {
+    /// values whose bits changed while they were CONVERTED into a database value (before any storage was involved):
+    /// the driver intends to write exact bit patterns, so a conversion that alters them breaks "reads back bit-for-bit"
+    /// just as a lossy storage would; reported as ValueAltered events (for which DbTrace has no action)
+    pub static ALTERED: std::cell::RefCell<Vec<serde_json::Value>> = const { std::cell::RefCell::new(vec![]) };
+}
+fn exact_f64(bits: u64) -> DbF64 {
+    let v: DbF64 = f64::from_bits(bits).into();
+    if v.to_f64().to_bits() != bits {
+        ALTERED.with(|a| a.borrow_mut().push(json!({"ev": "ValueAltered", "type": "f64", "written_bits": format!("{bits:016x}"),
+                                                    "converted_bits": format!("{:016x}", v.to_f64().to_bits())})));
+    }
+    v
+}
+
 pub fn exotic_value(rng: &mut Rng) -> DbValue {
     let len_near = |rng: &mut Rng| -> usize {
         match rng.below(4) { 0 => rng.below(4) as usize, 1 => 13 + rng.below(6) as usize, 2 => 30 + rng.below(11) as usize, _ => rng.below(41) as usize }
@@ -124,7 +143,7 @@ pub fn exotic_value(rng: &mut Rng) -> DbValue {
                 6 => 0xfff8_0000_0000_0000 | (rng.next() & 0x0007_ffff_ffff_ffff), 7 => 1, 8 => 0x000f_ffff_ffff_ffff,
                 _ => rng.next(),
             };
-            DbValue::F64(f64::from_bits(bits).into())
+            DbValue::F64(exact_f64(bits))
         }
         3 | 4 => {
             let n = len_near(rng);
@@ -141,7 +160,7 @@ pub fn exotic_value(rng: &mut Rng) -> DbValue {
         }
         7 => DbValue::VecI64((0..rng.below(6)).map(|_| rng.next() as i64).collect()),
         8 => DbValue::VecU64((0..rng.below(6)).map(|_| rng.next()).collect()),
-        9 => DbValue::VecF64((0..rng.below(6)).map(|_| f64::from_bits(rng.next()).into()).collect()),
+        9 => DbValue::VecF64((0..rng.below(6)).map(|_| exact_f64(if rng.chance(1, 4) { *rng.pick(&[1u64 << 63, 0, 0x7ff8_0000_0000_0001]) } else { rng.next() })).collect()),
         10 => DbValue::VecString((0..rng.below(5)).map(|_| "x".repeat(rng.below(20) as usize)).collect()),
         _ => DbValue::I64(rng.below(3) as i64),
     }
@@ -156,6 +175,11 @@ pub struct Gen<'a> {
 
 impl Gen<'_> {
     fn value(&mut self) -> DbValue {
+        if self.p.big_values && self.rng.chance(2, 3) {
+            let n = 40_000 + self.rng.below(80_000) as usize;
+            let mut x = self.rng.next();
+            return DbValue::Bytes((0..n).map(|_| { x = x.wrapping_mul(6364136223846793005).wrapping_add(1442695040888963407); (x >> 56) as u8 }).collect());
+        }
         if self.p.binary_values {
             return DbValue::I64(self.rng.below(2) as i64);
         }
@@ -614,6 +638,7 @@ pub fn run(args: &Args) {
         let mut step = 0;
         'steps: while step < ops {
             step += 1;
+            for note in ALTERED.with(|a| std::mem::take(&mut *a.borrow_mut())) { trace.emit(note); }
             trace.flush();
             wd.kick(&format!("run {run} step {step}"));
             if obs["ev"] != "Observe" {
